@@ -8,7 +8,7 @@ From GV Require Import Base.Outcome Base.AMap Model.GState Model.Creation Model.
   Model.Components Model.Scc Model.Cluster Model.ClusterW Model.Square Model.Partition Model.Eigen Model.Cent
   Model.Brandes Model.Closeness Model.Louvain.
 From GV Require Import Model.Classic Model.Gnp.
-From GV Require Import Spec.History Proofs.WFDefs Proofs.HistoryOk Proofs.DegreeOk Proofs.LouvainModelOk Proofs.TotalAll.
+From GV Require Import Spec.History Proofs.WFDefs Proofs.HistoryOk Proofs.DegreeOk Proofs.LouvainModelOk Proofs.TotalAll Proofs.LouvainTotal.
 Import ListNotations.
 Open Scope string_scope.
 
@@ -186,20 +186,50 @@ Qed.
 
 (* ---------------------------------------------------------------- Louvain *)
 Definition t_perms3 : list (list nat) := [[0]; [1; 0]; [2; 0; 1]]%nat.
+Definition t_perms5 : list (list nat) := [[0]; [1; 0]; [2; 0; 1]; [3; 1; 0; 2]; [4; 2; 0; 3; 1]]%nat.
 
 Example total_louvain_example :
   WF Z.eqb Z.ltb t_gT /\ weights_ok t_gT true /\ weights_ok t_gT false /\ (0 <= 1)%Q /\
   (length (nodes_vec t_gT) < 4)%nat /\ (length (nodes_vec t_gT) ^ length (nodes_vec t_gT) <= 27)%nat /\
+  shuffle_ok t_perms3 (length (nodes_vec t_gT)) /\
   louvain_partitions Z.eqb Z.ltb 4 27 t_gT true 1 (1 # 10000000)%Q t_perms3 = Ok [[[2; 1; 3]]]%Z /\
   louvain_communities Z.eqb Z.ltb 4 27 t_gT false 1 (1 # 10000000)%Q t_perms3 = Ok [[1; 3; 2]]%Z /\
-  (* what the partial statement does not exclude: a Panic site, here the model's own shuffle oracle *)
+  (* directed, and multi-edge (collapsed by to_single_edges first), five nodes, fuel 6 and 5^5 *)
+  louvain_communities Z.eqb Z.ltb 6 3125 t_gD false 1 (1 # 10000000)%Q t_perms5 = Ok [[1; 7]; [3; 5]; [9]]%Z /\
+  louvain_communities Z.eqb Z.ltb 6 3125 t_gM false 1 (1 # 10000000)%Q t_perms5 = Ok [[1; 7]; [3; 5]; [9]]%Z /\
+  (* what the hypotheses exclude, evaluated: an ill-formed shuffle table (the model's own oracle) ... *)
   louvain_partitions Z.eqb Z.ltb 4 27 t_gT true 1 (1 # 10000000)%Q [[0%nat]] =
-    Panic "model: shuffle table has no row for this node count".
+    Panic "model: shuffle table has no row for this node count" /\
+  (* ... weighted = true with an edge without weight, or with weights 1 and -1 adding up to 0:
+     model-domain sites (no NaN / inf arithmetic in the exact model) ... *)
+  ~ weights_ok t_gN true /\
+  louvain_partitions Z.eqb Z.ltb 6 3125 t_gN true 1 (1 # 10000000)%Q t_perms5 = Panic nan_site /\
+  louvain_partitions Z.eqb Z.ltb 6 3125 t_gZ true 1 (1 # 10000000)%Q t_perms5 = Panic modularity_domain_site /\
+  (* ... while other inputs outside the hypotheses just return: negative weights with a non-zero
+     total, a negative resolution *)
+  ~ weights_ok t_gU true /\
+  louvain_partitions Z.eqb Z.ltb 6 3125 t_gU true 1 (1 # 10000000)%Q t_perms5 = Ok [[[1; 7]; [3; 5]; [9]]]%Z /\
+  louvain_partitions Z.eqb Z.ltb 6 3125 t_gU false (-1) (1 # 10000000)%Q t_perms5 = Ok [[[3; 7; 5; 1]; [9]]]%Z.
 Proof.
   split; [exact t_gT_WF|]. split.
   { intros _ e He. vm_compute in He. destruct He as [<-|[<-|[<-|[]]]]; cbn; eexists; split; try reflexivity; lia. }
   split; [intros H; discriminate|]. split; [discriminate|].
-  vm_compute. repeat split; lia.
+  split; [vm_compute; lia|]. split; [vm_compute; lia|].
+  split.
+  { intros k Hk. change (length (nodes_vec t_gT)) with 3%nat in Hk.
+    assert (Hc : (k = 1 \/ k = 2 \/ k = 3)%nat) by lia.
+    destruct Hc as [ -> | [ -> | -> ] ]; eexists; (split; [reflexivity|]); (split; [reflexivity|]);
+      cbn; intros i Hi; intuition lia. }
+  split; [vm_compute; reflexivity|]. split; [vm_compute; reflexivity|].
+  split; [vm_compute; reflexivity|]. split; [vm_compute; reflexivity|].
+  split; [vm_compute; reflexivity|].
+  split.
+  { intros H. destruct (H eq_refl (mkedge 3%Z 7%Z None None)) as (z & Hz & _); [vm_compute; tauto|discriminate]. }
+  split; [vm_compute; reflexivity|]. split; [vm_compute; reflexivity|].
+  split.
+  { intros H. destruct (H eq_refl (mkedge 5%Z 7%Z (Some (-1)%Z) None)) as (z & Hz & Hp); [vm_compute; tauto|].
+    cbn in Hz. inversion Hz. subst z. lia. }
+  split; vm_compute; reflexivity.
 Qed.
 
 (* ---------------------------------------------------------------- generators: arguments outside the valid range *)
